@@ -238,9 +238,9 @@ class ColumnBackend(PolarsSchemaBackend):
             results.append(
                 CoreCheckResult(
                     passed=cast(bool, passed.select(column).item()),
-                    check_output=isna.collect().rename(
-                        {column: CHECK_OUTPUT_KEY}
-                    ),
+                    check_output=isna.select(
+                        pl.col(column).alias(CHECK_OUTPUT_KEY)
+                    ).collect(),
                     check="not_nullable",
                     reason_code=SchemaErrorReason.SERIES_CONTAINS_NULLS,
                     message=(
